@@ -340,8 +340,11 @@ def run_check(pid, tier, seed, replay=None):
         assumptions=getattr(mod, "ASSUMPTIONS", []),
         wall_s=round(wall, 2), violations=nviol,
     )
-    os.makedirs(os.path.join(ROOT, "evidence"), exist_ok=True)
-    with open(os.path.join(ROOT, "evidence", f"{pid}.json"), "w") as f:
+    # runs against a scratch tree (VERIF_REPO) are experiments: their evidence does not describe /repo
+    evdir = os.path.join(ROOT, "evidence") if os.environ.get("VERIF_REPO", "/repo").rstrip("/") == "/repo" \
+        else os.path.join(ROOT, ".cache", "evidence_alt")
+    os.makedirs(evdir, exist_ok=True)
+    with open(os.path.join(evdir, f"{pid}.json"), "w") as f:
         json.dump(evidence, f, indent=1, default=str)
     for ln in lines:
         print(ln)
